@@ -146,10 +146,8 @@ fn one_bytes(acc: &mut Acc, label: &dyn Fn() -> String, bytes: &[u8], cls: usize
         (Ok(vz), Ok(z)) => {
             // both accept: the contents must agree
             let d = vz.debug();
-            if d == z.debug_string() {
+            if canon_debug(&d) == canon_debug(&z.debug_string()) {
                 acc.hit(MUT_AGREE);
-            } else if !d.starts_with("TimeZone { transitions: [") || !d.contains("local_time_types: [") || !d.contains("extra_rule: ") {
-                machinery(&format!("unexpected Debug layout of the zone: {}", d.chars().take(200).collect::<String>()));
             } else {
                 acc.violation("from_tzif:content", format!("{}: VerifZone::from_tzif({} bytes)", label(), bytes.len()), z.debug_string().chars().take(600).collect(), d.chars().take(600).collect());
             }
@@ -377,7 +375,7 @@ fn one_tz(acc: &mut Acc, s: &str, must_accept: bool, cls: usize) {
     match (got, want) {
         (Ok(vz), Some(r)) => {
             let z = RefZone::from_rule(r);
-            if vz.debug() != z.debug_string() {
+            if canon_debug(&vz.debug()) != canon_debug(&z.debug_string()) {
                 acc.violation("from_tz:content", format!("VerifZone::from_tz(Some({:?}))", s), z.debug_string(), vz.debug());
             } else {
                 acc.hit(if must_accept { TZ_EQ } else { MUT_AGREE });
@@ -586,7 +584,7 @@ fn main() {
                     match guard(|| VerifZone::from_tzif(&bytes)) {
                         Ok(Ok(vz)) => {
                             let d = vz.debug();
-                            if d == zr.debug_string() {
+                            if canon_debug(&d) == canon_debug(&zr.debug_string()) {
                                 acc.hit(ACC_EQ);
                             } else {
                                 acc.violation("from_tzif:content", format!("synthetic zone #{} written as TZif v{} {:?} indicators={}", code, version, v1, ind), zr.debug_string(), d);
@@ -611,7 +609,7 @@ fn main() {
                 acc.states += 1;
                 match (guard(|| VerifZone::from_tzif(&b)), read_tzif(&b)) {
                     (Ok(Ok(vz)), Ok(z)) => {
-                        if vz.debug() == z.debug_string() {
+                        if canon_debug(&vz.debug()) == canon_debug(&z.debug_string()) {
                             acc.hit(SYS_EQ);
                         } else {
                             acc.violation("from_tzif:system-content", format!("{}", p.display()), z.debug_string().chars().take(500).collect(), vz.debug().chars().take(500).collect());
